@@ -347,6 +347,7 @@ func (d doubleQuotes) String() string {
 // Loosely based on Pratt parser explained in this article: https://matklad.github.io/2020/04/13/simple-but-powerful-pratt-parsing.html
 func (p *Parser) term(maxPriority Integer) (Term, error) {
 	var lhs Term
+	var lhsPriority Integer // priority of lhs; 0 for what term0 reads (atomic, bracketed or in functional notation)
 	switch op, err := p.prefix(maxPriority); err {
 	case nil:
 		_, rbp := op.bindingPriorities()
@@ -356,6 +357,7 @@ func (p *Parser) term(maxPriority Integer) (Term, error) {
 			return p.term0(maxPriority)
 		}
 		lhs = op.name.Apply(t)
+		lhsPriority = op.priority
 	case errNoOp:
 		lhs, err = p.term0(maxPriority)
 		if err != nil {
@@ -366,10 +368,11 @@ func (p *Parser) term(maxPriority Integer) (Term, error) {
 	}
 
 	for {
-		op, err := p.infix(maxPriority)
+		op, err := p.infix(maxPriority, lhsPriority)
 		if err != nil {
 			break
 		}
+		lhsPriority = op.priority
 		switch _, rbp := op.bindingPriorities(); {
 		case rbp > 1200:
 			lhs = op.name.Apply(lhs)
@@ -427,7 +430,10 @@ func (p *Parser) prefix(maxPriority Integer) (operator, error) {
 	return operator{}, errNoOp
 }
 
-func (p *Parser) infix(maxPriority Integer) (operator, error) {
+// infix reads an infix or postfix operator that may follow a left operand of priority lhsPriority in a
+// term of priority at most maxPriority: the resulting term has the operator's priority, and the left
+// operand must fit the operator's left argument (priority-1 for x, priority for y).
+func (p *Parser) infix(maxPriority, lhsPriority Integer) (operator, error) {
 	a, err := p.op(maxPriority)
 	if err != nil {
 		return operator{}, errNoOp
@@ -435,13 +441,13 @@ func (p *Parser) infix(maxPriority Integer) (operator, error) {
 
 	if op := p.operators[a][operatorClassInfix]; op != (operator{}) {
 		l, _ := op.bindingPriorities()
-		if l <= maxPriority {
+		if op.priority <= maxPriority && lhsPriority <= l {
 			return op, nil
 		}
 	}
 	if op := p.operators[a][operatorClassPostfix]; op != (operator{}) {
 		l, _ := op.bindingPriorities()
-		if l <= maxPriority {
+		if op.priority <= maxPriority && lhsPriority <= l {
 			return op, nil
 		}
 	}
